@@ -16,7 +16,7 @@ Theorem C07_failed_frame_generic : forall c, d_stale_changer c = false -> d_prev
   forall e idx s t s' rc cnt,
   d_fee_after_body (x_fees c) = false ->
   tx_invalid t = true \/ is_ibtp t = false \/ d_ibtp_no_revert c = false ->
-  d_raw_add c = false \/ tx_raws c s t = [] ->
+  d_raw_add c = false \/ tx_raws c idx s t = [] ->
   apply_tx c e idx s t = (s', rc, cnt) -> r_ok rc = false ->
   frame_ok e s s' t.
 Proof. exact failed_frame_generic. Qed.
@@ -31,7 +31,7 @@ Theorem C07_rawadd_characterised : forall c, d_stale_changer c = false -> d_prev
   (forall a, bal s' a = spec_bal e s t a) /\
   (forall a, nonce s' a = spec_nonce s t a) /\
   (forall k, store s' k = store s k \/
-             (d_raw_add c = true /\ exists v, In (k, v) (tx_raws c s t) /\ store s' k = Some v)).
+             (d_raw_add c = true /\ exists v, In (k, v) (tx_raws c idx s t) /\ store s' k = Some v)).
 Proof. exact failed_characterised. Qed.
 Print Assumptions C07_rawadd_characterised.
 
@@ -42,7 +42,7 @@ Theorem C07_block_position_frame : forall c e s pre p t,
   tx_invalid t = true \/ is_ibtp t = false \/ d_ibtp_no_revert c = false ->
   let '(si, _, _) := apply_txs c e 0%N (new_block s pre) p in
   let '(si', rc, _) := apply_tx c e (N.of_nat (length p)) si t in
-  d_raw_add c = false \/ tx_raws c si t = [] ->
+  d_raw_add c = false \/ tx_raws c (N.of_nat (length p)) si t = [] ->
   r_ok rc = false -> frame_ok e si si' t.
 Proof. exact block_position_frame. Qed.
 Print Assumptions C07_block_position_frame.
@@ -59,6 +59,43 @@ Theorem C07_failed_not_delivered : forall c e idx s t s' rc cnt,
   d_failed_events c = false -> apply_tx c e idx s t = (s', rc, cnt) -> r_ok rc = false -> cnt = [].
 Proof. exact failed_not_delivered. Qed.
 Print Assumptions C07_failed_not_delivered.
+
+(** the position a delivery is announced with.  A contract body runs in a context ([callctx]: the
+    transaction's position in the block, its nonce, the call depth); [PostEvent] stamps the event
+    with the context's index and [Cross] (CrossInvoke) builds the CALLEE's context from the
+    caller's.  For every program - events posted by cross-invoked contracts at any depth, inner
+    frames failing or not - every event posted under [run c cx] carries [cx_index cx], provided
+    CrossInvoke hands down the caller's index (flag [d_cross_index_nonce] off: the code as it is) *)
+Theorem C07_cross_events_outer_index : forall c, d_cross_index_nonce c = false ->
+  forall p cx s s' r, run c cx p s = (s', r) ->
+  exists l, evs s' = evs s ++ l /\ Forall (fun ie : N * event => fst ie = cx_index cx) l.
+Proof. exact run_events_index. Qed.
+Print Assumptions C07_cross_events_outer_index.
+
+(** ... so every Counter entry a transaction contributes names that transaction's own position *)
+Theorem C07_counter_entries_own_index : forall c e idx s t s' rc cnt,
+  d_cross_index_nonce c = false ->
+  apply_tx c e idx s t = (s', rc, cnt) ->
+  forall x, In x cnt -> fst (fst (snd x)) = idx.
+Proof. exact counter_entries_own_index. Qed.
+Print Assumptions C07_counter_entries_own_index.
+
+(** ... and over a whole block every announced position lies inside the block and holds a
+    transaction whose receipt is SUCCESS: a FAILED transaction is never announced *)
+Theorem C07_block_counter_sound : forall c e, d_failed_events c = false -> d_cross_index_nonce c = false ->
+  forall ts idx s s' rcs cnt, apply_txs c e idx s ts = (s', rcs, cnt) ->
+  forall x, In x cnt ->
+  exists j, (j < length ts)%nat /\ fst (fst (snd x)) = (idx + N.of_nat j)%N /\ nth j (map r_ok rcs) false = true.
+Proof. exact block_counter_sound. Qed.
+Print Assumptions C07_block_counter_sound.
+
+(** CrossInvoke handing the transaction's nonce down as the index (mutation class): expected
+    refutation - the FAILED transaction at position = nonce is announced, the posting one is not *)
+Theorem C07_cross_index_nonce_refuted :
+  let '(_, rcs, cnt) := exec_block cfg_crossidx env1 s_empty [] relay_block in
+  map r_ok rcs = [true; true; false] /\ cnt = [(9%N, (2%N, true, false))].
+Proof. exact cross_index_nonce_refuted. Qed.
+Print Assumptions C07_cross_index_nonce_refuted.
 
 Theorem C07_view_pure : forall c e s t, fst (view_tx c e s t) = s.
 Proof. exact view_pure. Qed.
